@@ -339,7 +339,7 @@ class Symex:
                 return v[1][idx]
             if v[0] == "closure":
                 return v[2][idx]
-            key = name if name is not None else idx
+            key = name if name is not None else str(idx)
             if v[0] == "upd":
                 if v[2] == ("f", key):
                     return v[3]
@@ -386,8 +386,8 @@ class Symex:
                 return ("closure", old[1], tuple(fs))
             if old[0] == "uninit" and len(path) == 1:
                 # piecewise initialisation of a tuple/struct local
-                return ("upd", old, ("f", e[2] if e[2] is not None else idx), val)
-            key = e[2] if e[2] is not None else idx
+                return ("upd", old, ("f", e[2] if e[2] is not None else str(idx)), val)
+            key = e[2] if e[2] is not None else str(idx)
             return ("upd", old, ("f", key), self.update(st, self.project(st, old, e), path[1:], val))
         if k == "idx":
             if old[0] == "array" and e[1][0] == "const":
@@ -1114,6 +1114,70 @@ def m_sort(ex, st, call, args):
     return gen(st, 0, [])
 
 
+def _opt_cases(ex, st, v, head="core::option::Option", some="Some", none="None"):
+    """yield (state, is_some, payload) for an Option value, forking when symbolic"""
+    if v[0] in ("ref", "&"):
+        v = ex.deref_val(st, v)
+    if v[0] == "adt" and v[1] == head:
+        yield st, v[2] == some, (v[3][0] if v[3] else None)
+        return
+    cv = ex.canon(st, v)
+    d = ("discr", cv, head)
+    vals = dict(CORE_ENUMS[head])
+    known = st.pc.get(d)
+    for name in (none, some):
+        if known is not None and known != vals[name]:
+            continue
+        s2 = st if known is not None else st.clone()
+        if known is None:
+            s2.assume(d, vals[name])
+        yield s2, name == some, (("field", ("as", cv, some), "0") if name == some else None)
+
+
+def m_option_map(ex, st, call, args):
+    def gen():
+        for s, is_some, payload in _opt_cases(ex, st, args[0]):
+            if not is_some:
+                yield s, "ret", ("adt", "core::option::Option", "None", ())
+            else:
+                for s2, v in _call_closure_paths(ex, s, args[1], [payload]):
+                    yield s2, "ret", ("adt", "core::option::Option", "Some", (v,))
+    try:
+        f = args[1]
+        fv = ex.load(st, f[1]) if f[0] == "ref" else (f[1] if f[0] == "&" else f)
+        if fv[0] != "closure":
+            return NotImplemented
+    except Exception:
+        return NotImplemented
+    return gen()
+
+
+def m_option_is(some):
+    def model(ex, st, call, args):
+        def gen():
+            for s, is_some, payload in _opt_cases(ex, st, args[0]):
+                yield s, "ret", ("const", is_some == some)
+        return gen()
+    return model
+
+
+def m_option_unwrap(ex, st, call, args):
+    def gen():
+        for s, is_some, payload in _opt_cases(ex, st, args[0]):
+            if is_some:
+                yield s, "ret", payload
+            else:
+                yield s, "panic", ("unwrap on None",)
+    return gen()
+
+
+def m_option_unwrap_or(ex, st, call, args):
+    def gen():
+        for s, is_some, payload in _opt_cases(ex, st, args[0]):
+            yield s, "ret", payload if is_some else args[1]
+    return gen()
+
+
 DEFAULT_MODELS = {
     "core::cmp::PartialOrd::lt": m_cmp("lt"),
     "core::cmp::PartialOrd::le": m_cmp("le"),
@@ -1133,6 +1197,12 @@ DEFAULT_MODELS = {
     "alloc::vec::Vec::<T, A>::len": m_len,
     "core::slice::<impl [T]>::len": m_len,
     "core::borrow::Borrow::borrow": m_identity,
+    "core::option::Option::<T>::map": m_option_map,
+    "core::option::Option::<T>::is_some": m_option_is(True),
+    "core::option::Option::<T>::is_none": m_option_is(False),
+    "core::option::Option::<T>::unwrap": m_option_unwrap,
+    "core::option::Option::<T>::expect": m_option_unwrap,
+    "core::option::Option::<T>::unwrap_or": m_option_unwrap_or,
     "core::array::<impl [T; N]>::map": m_array_map,
     "alloc::slice::<impl [T]>::sort": m_sort,
     "core::slice::<impl [T]>::sort_unstable": m_sort,
